@@ -151,6 +151,34 @@ fn res_err(e: String) -> J {
     json!({"k": "err", "e": e, "v": {}})
 }
 
+/// Streaming output: events are written as soon as an API call has returned; before every call
+/// the op about to run is recorded in a side file so that a hang or a dying process can be
+/// attributed to that call by the orchestrator (interpretation decision 14).
+pub struct Sink {
+    pub out: std::io::BufWriter<std::fs::File>,
+    pub progress_path: String,
+    pub hist_index: usize,
+    pub op_started: std::sync::Arc<std::sync::atomic::AtomicU64>,
+}
+impl Sink {
+    pub fn flush_events(&mut self, events: &mut Vec<J>) {
+        use std::io::Write;
+        for e in events.drain(..) {
+            serde_json::to_writer(&mut self.out, &e).unwrap();
+            self.out.write_all(b"\n").unwrap();
+        }
+        self.out.flush().unwrap();
+    }
+    pub fn begin_op(&mut self, hid: &J, op: &J, clk: u32) {
+        let now = std::time::SystemTime::now().duration_since(std::time::UNIX_EPOCH).unwrap().as_secs();
+        self.op_started.store(now, std::sync::atomic::Ordering::SeqCst);
+        let _ = std::fs::write(&self.progress_path, serde_json::to_vec(&json!({"hist_index": self.hist_index, "hid": hid, "op": op, "clk": clk})).unwrap());
+    }
+    pub fn end_op(&mut self) {
+        self.op_started.store(0, std::sync::atomic::Ordering::SeqCst);
+    }
+}
+
 pub struct RunOpts {
     /// emit a CrashMount (library remount of the write-log prefix) after this fraction of writes (per mille)
     pub crash_permille: u64,
@@ -971,7 +999,7 @@ impl<'a, const D: usize, const F: usize, const V: usize> Ctx<'a, D, F, V> {
 }
 
 fn run_ops<const D: usize, const F: usize, const V: usize>(
-    h: &J, img: &Image, vals: &mut Vals, events: &mut Vec<J>, stats: &mut Stats, opts: &RunOpts,
+    h: &J, img: &Image, vals: &mut Vals, events: &mut Vec<J>, stats: &mut Stats, opts: &RunOpts, sink: &mut Sink,
 ) {
     let id_offset = h.get("id_offset").and_then(|x| x.as_u64()).unwrap_or(5000) as u32;
     let clock = Clock(Rc::new(Cell::new(100)));
@@ -995,10 +1023,28 @@ fn run_ops<const D: usize, const F: usize, const V: usize>(
             events.push(json!({"ev": "Remount", "vols": lv}));
             continue;
         }
+        // an op whose handle variable was never bound (its open failed) is skipped
+        let bound = |k: &str, want: u8| -> bool {
+            match op.get(k).and_then(|x| x.as_str()) {
+                None => true,
+                Some(var) => match ctx.vars.get(var) {
+                    Some(Var::Vol(_)) => want == 0,
+                    Some(Var::Dir(_)) => want == 1,
+                    Some(Var::File(_)) => want == 2,
+                    None => false,
+                },
+            }
+        };
+        if name != "has_open" && !(bound("v", 0) && bound("d", 1) && bound("f", 2)) {
+            continue;
+        }
         clk += 1;
         clock.0.set(clk);
         stats.api_calls += 1;
+        sink.flush_events(events);
+        sink.begin_op(&h["id"], op, clk);
         let r = catch_unwind(AssertUnwindSafe(|| ctx.exec(op)));
+        sink.end_op();
         let api = op.get("api").and_then(|x| x.as_str()).unwrap_or("raw");
         match r {
             Ok((args, res)) => {
@@ -1026,7 +1072,7 @@ fn run_ops<const D: usize, const F: usize, const V: usize>(
 }
 
 /// Run one history and append its events.
-pub fn run_history(h: &J, events: &mut Vec<J>, opts: &RunOpts) -> Stats {
+pub fn run_history(h: &J, events: &mut Vec<J>, opts: &RunOpts, sink: &mut Sink) -> Stats {
     let bounds: Vec<usize> = h.get("bounds").and_then(|x| x.as_array()).map(|a| a.iter().map(|x| x.as_u64().unwrap() as usize).collect()).unwrap_or(vec![0, 3, 255, 509]);
     let mut vals = Vals::new(bounds.clone());
     let img = mkfs::build(&h["image"], &mut vals);
@@ -1041,7 +1087,7 @@ pub fn run_history(h: &J, events: &mut Vec<J>, opts: &RunOpts) -> Stats {
     }
     macro_rules! go {
         ($d:expr, $f:expr, $v:expr) => {
-            run_ops::<$d, $f, $v>(h, &img, &mut vals, events, &mut stats, opts)
+            run_ops::<$d, $f, $v>(h, &img, &mut vals, events, &mut stats, opts, sink)
         };
     }
     match (lim[0], lim[1], lim[2]) {
